@@ -1,7 +1,118 @@
 import ComposeVerif.Ops.Common
-/-! line-protocol ops for C18 (filled in by the property's owner) -/
+import ComposeVerif.Model.Dotenv
+import ComposeVerif.Spec.Dotenv
+/-! line-protocol ops for C18: `dotenv` (model of `dotenv.UnmarshalWithLookup`) -/
+open Lean
 namespace CV.Ops.C18
+open CV.Dotenv
 
-def handlers : List (String × Handler) := []
+def mapJson (m : Map) : Json :=
+  Json.mkObj (m.map fun (k, v) => (String.ofList k, str v))
 
+def errClass : PErr → String
+  | .unexpectedChar => "unexpectedChar"
+  | .keySpace => "keySpace"
+  | .unterminated => "unterminated"
+  | .zeroLength => "zeroLength"
+  | .tmpl .invalid => "tmplInvalid"
+  | .tmpl (.required _ _) => "tmplRequired"
+
+def siteName : Site → String
+  | .fuel => "fuel"
+  | .tmpl .fuel => "tmpl.fuel"
+  | .tmpl .matchGroups => "template.matchGroups"
+  | .stmtSlice => "dotenv.(*parser).getStatementStart"
+  | .stmtIndex0 => "dotenv.(*parser).getStatementStart"
+  | .stmtSlice2 => "dotenv.(*parser).getStatementStart"
+  | .keySlice => "dotenv.(*parser).locateKeyName"
+  | .keyRest => "dotenv.(*parser).locateKeyName"
+  | .splitIndex0 => "dotenv.(*parser).locateKeyName"
+  | .quoteIndex => "dotenv.(*parser).extractVarValue"
+  | .quoteRest => "dotenv.(*parser).extractVarValue"
+  | .untermSlice => "dotenv.(*parser).extractVarValue"
+
+def outJson : POut → Json
+  | .ok m => Json.mkObj [("ok", mapJson m)]
+  | .err e m => Json.mkObj [("err", errClass e), ("map", mapJson m)]
+  | .panic s => Json.mkObj [("panic", siteName s)]
+
+def dotenv : Handler := fun args =>
+  let src := (getStr args "src").toList
+  let lookup := envOfList (getStrMap args "lookup")
+  outJson (CV.Dotenv.parse src lookup)
+
+def envFiles : Handler := fun args =>
+  let files := (getStrList args "files").map String.toList
+  let lookup := envOfList (getStrMap args "lookup")
+  outJson (CV.Dotenv.fromFiles lookup files [])
+
+def handlers1 : List (String × Handler) := [("dotenv", dotenv), ("envFiles", envFiles)]
+
+end CV.Ops.C18
+
+namespace CV.Ops.C18
+open CV.Dotenv
+
+def chr1 (j : Json) (k : String) : Char :=
+  match (getStr j k).toList with
+  | c :: _ => c
+  | [] => 'x'
+
+def itemOfJson (j : Json) : Option QItem :=
+  match j.getObjVal? "c" with
+  | .ok (.str s) => (match s.toList with | [c] => some (.chr c) | _ => none)
+  | _ =>
+  match j.getObjVal? "e" with
+  | .ok (.str s) => (match s.toList with | [c] => some (.esc c) | _ => none)
+  | _ =>
+  match j.getObjVal? "q" with
+  | .ok _ => some .quote
+  | _ => none
+
+def itemsOfJson (j : Json) (k : String) : Option (List QItem) :=
+  match j.getObjVal? k with
+  | .ok (.arr a) => a.toList.mapM itemOfJson
+  | _ => some []        -- Go encodes an empty slice as null / omits it
+
+def valueOfJson (j : Json) : Option Value :=
+  match getStr j "t" with
+  | "unq" => some (.unq (getStr j "s").toList)
+  | "sq" => (itemsOfJson j "items").map Value.sq
+  | "dq" => (itemsOfJson j "items").map Value.dq
+  | _ => none
+
+def optStr (j : Json) (flag k : String) : Option Str :=
+  if getBool j flag then some (getStr j k).toList else none
+
+def lineOfJson (j : Json) : Option Line :=
+  match getStr j "k" with
+  | "blank" => some (.blank (getStr j "ws").toList)
+  | "comment" => some (.comment (getStr j "ws").toList (getStr j "text").toList)
+  | "bare" => some (.bare (getStr j "indent").toList (optStr j "hasExp" "exp") (getStr j "key").toList (getStr j "trail").toList)
+  | "assign" =>
+    match valueOfJson (getObj j "v") with
+    | some v =>
+      let sep := if getStr j "sep" == ":" then Sep.colon else Sep.eq
+      some (.assign (getStr j "indent").toList (optStr j "hasExp" "exp") (getStr j "key").toList (getStr j "ws1").toList sep
+        (getStr j "ws2").toList v (getStr j "trail").toList (optStr j "hasCmt" "cmt"))
+    | none => none
+  | _ => none
+
+/-- spec oracle: render the lines, say whether they are well-formed, and what the grammar says they denote -/
+def dotenvSpec : Handler := fun args =>
+  let lookup := envOfList (getStrMap args "lookup")
+  let ls : Option (List Json) := match args.getObjVal? "lines" with
+    | .ok (.arr a) => some a.toList
+    | .ok .null => some []
+    | .error _ => some []
+    | _ => none
+  match ls with
+  | some a =>
+    match a.mapM lineOfJson with
+    | some t => Json.mkObj [("wf", Json.bool (WF t)), ("rendered", str (render t)),
+        ("renderedNoNL", str (renderNoFinalNL t)), ("eval", outJson (evalLines lookup t))]
+    | none => Json.mkObj [("bad", "lines")]
+  | none => Json.mkObj [("bad", "lines")]
+
+def handlers : List (String × Handler) := handlers1 ++ [("dotenvSpec", dotenvSpec)]
 end CV.Ops.C18
